@@ -329,6 +329,16 @@ func c05StableSort(w *World, r *Report) {
 		if f, _ := calleeOf(c.Common()); f != nil && fnPkgPath(f) == "sort" && f.Name() == "Strings" {
 			ok, why = true, "sort.Strings"
 		}
+		if f, _ := calleeOf(c.Common()); f != nil && fnPkgPath(f) == "slices" && len(c.Common().Args) >= 1 {
+			switch genericName(f) {
+			case "Sort":
+				ok, why = true, "slices.Sort"
+			case "SortFunc", "SortStableFunc":
+				if len(c.Common().Args) == 2 {
+					ok, why = funcComparesElements(c.Common().Args[1])
+				}
+			}
+		}
 	}
 	r.Check(ok, "C05/STABLE-SORT", "sortTemplates", w.Pos(st.Pos()), "template parse/execute order: "+why, "template order comparator is not total: "+why)
 }
